@@ -53,7 +53,7 @@ func c04(c *Ctx) {
 		}
 	} else {
 		rsp := cfgx.TupleResult(run, 0)
-		reqAlloc = flow.Root(cfgx.CallArgs(run)[2])
+		reqAlloc = flow.Root(sole(cfgx.CallArgs(run)[2]))
 		fieldStore := func(name string) *ssa.Store {
 			for _, b := range fc.Blocks {
 				for _, in := range b.Instrs {
@@ -147,24 +147,28 @@ func c04(c *Ctx) {
 				c.R.Check(good, site(as[0])+" args", c.pos(as[0].Pos()), "AsState(xr, FetchConnection(xr), ObserveComposedResources(xr))", "observed state is not built from the XR, its connection details and the observed composed resources")
 			}
 		}
-		c.R.Check(flow.Root(cfgx.CallArgs(run)[2]) == reqAlloc && isFreshAlloc(reqAlloc, "v1.RunFunctionRequest") && loop[reqAllocBlock(reqAlloc)], site(run)+" fresh request", c.pos(run.Pos()), "each step gets a fresh request literal", "the request object is reused across steps")
+		c.R.Check(flow.Root(sole(cfgx.CallArgs(run)[2])) == reqAlloc && isFreshAlloc(reqAlloc, "v1.RunFunctionRequest") && loop[reqAllocBlock(reqAlloc)], site(run)+" fresh request", c.pos(run.Pos()), "each step gets a fresh request literal", "the request object is reused across steps")
 	}
 
 	c.R.Rule("R4.2", "per-step inputs: name, input and credentials derive from the same pipeline element", 3,
 		"a step would run another step's function, input or credentials")
 	if run != nil {
-		_, np, ok := flow.AccessPath(cfgx.CallArgs(run)[1])
-		elemRoot, _, _ := flow.AccessPath(cfgx.CallArgs(run)[1])
-		c.R.Check(ok && np == "FunctionRef.Name", site(run)+" name", c.pos(run.Pos()), "the function name is fn.FunctionRef.Name", "the function run is not named by the step's functionRef ("+np+")")
+		elemRoot, np, ok := flow.AccessPathC(cfgx.CallArgs(run)[1])
+		// the pipeline element the name is read from: everything before ".FunctionRef.Name"
+		elemPath := strings.TrimSuffix(np, "FunctionRef.Name")
+		sameElem := func(r ssa.Value, p, field string) bool {
+			return r == elemRoot && strings.HasSuffix(p, field) && strings.TrimSuffix(p, field) == elemPath
+		}
+		c.R.Check(ok && strings.HasSuffix(np, "FunctionRef.Name") && (elemPath == "" || strings.HasSuffix(elemPath, "Pipeline[].")), site(run)+" name", c.pos(run.Pos()), "the function name is fn.FunctionRef.Name", "the function run is not named by the step's functionRef ("+np+")")
 		um := cfgx.Calls(fc, func(ci ssa.CallInstruction) bool { return strings.HasSuffix(cfgx.CalleeName(ci), "structpb.Struct).UnmarshalJSON") })
 		if len(um) == 1 {
-			r, p, _ := flow.AccessPath(cfgx.CallArgs(um[0])[0])
-			c.R.Check(p == "Input.Raw" && r == elemRoot, site(um[0])+" input", c.pos(um[0].Pos()), "the input is fn.Input.Raw of the same step", "the input is not the same step's fn.Input.Raw")
+			r, p, _ := flow.AccessPathC(cfgx.CallArgs(um[0])[0])
+			c.R.Check(sameElem(r, p, "Input.Raw"), site(um[0])+" input", c.pos(um[0].Pos()), "the input is fn.Input.Raw of the same step", "the input is not the same step's fn.Input.Raw")
 			// req.Input = in
 			okIn := false
 			for _, b := range fc.Blocks {
 				for _, in := range b.Instrs {
-					if st, ok := in.(*ssa.Store); ok && isFieldSel(st.Addr, "v1.RunFunctionRequest", "Input") && flow.Root(st.Addr) == reqAlloc && st.Val == cfgx.Receiver(um[0]) {
+					if st, ok := in.(*ssa.Store); ok && isFieldSel(st.Addr, "v1.RunFunctionRequest", "Input") && flow.Root(st.Addr) == reqAlloc && sole(st.Val) == cfgx.Receiver(um[0]) {
 						okIn = true
 					}
 				}
@@ -179,8 +183,8 @@ func c04(c *Ctx) {
 				if mu, ok := in.(*ssa.MapUpdate); ok && strings.HasSuffix(mu.Map.Type().String(), "v1.Credentials") {
 					rk, pk, _ := flow.AccessPath(mu.Key)
 					okCred = pk == "Name" && flow.Strict.Any(rk, func(v ssa.Value) bool {
-						r2, p2, _ := flow.AccessPath(v)
-						return p2 == "Credentials" && r2 == elemRoot || strings.HasSuffix(p2, "Credentials[]") && r2 == elemRoot
+						r2, p2, _ := flow.AccessPathC(v)
+						return sameElem(r2, p2, "Credentials") || sameElem(r2, p2, "Credentials[]")
 					})
 					if !okCred {
 						// range element copy: cs := fn.Credentials[i]
@@ -215,8 +219,14 @@ func c04(c *Ctx) {
 					fresh = false
 				case *ssa.Store:
 					if isReqCreds(x.Addr) {
-						if mm, ok := x.Val.(*ssa.MakeMap); !ok || !loop[mm.Block()] {
+						ls := leaves(x.Val)
+						if len(ls) == 0 {
 							fresh = false
+						}
+						for _, l := range ls {
+							if mm, ok := l.(*ssa.MakeMap); !ok || !loop[mm.Block()] {
+								fresh = false
+							}
 						}
 					}
 				}
@@ -342,7 +352,12 @@ func c04(c *Ctx) {
 						})
 						c.R.Check(latest, site(fetch)+" latest-selectors", c.pos(fetch.Pos()), "selectors come from the response just received", "the selectors fetched are not those of the latest response")
 						// key and selector from the same range
-						c.R.Check(flow.Strict.Any(mu.Key, func(v ssa.Value) bool { _, ok := v.(*ssa.Range); return ok }) && sameRange(mu.Key, sel), load.FuncName(rf)+": name/selector pair", c.pos(mu.Pos()), "stored under the requirement's own name", "the fetched resources are stored under another requirement's name")
+						paired := flow.Strict.Any(mu.Key, func(v ssa.Value) bool { _, ok := v.(*ssa.Range); return ok }) && sameRange(mu.Key, sel)
+						if lk, ok := sel.(*ssa.Lookup); ok && !paired {
+							// selectors[name] with the very name the result is stored under
+							paired = lk.Index == mu.Key
+						}
+						c.R.Check(paired, load.FuncName(rf)+": name/selector pair", c.pos(mu.Pos()), "stored under the requirement's own name", "the fetched resources are stored under another requirement's name")
 					}
 				}
 			}
@@ -397,7 +412,7 @@ func c04(c *Ctx) {
 					t1 := hasSuffixCall(bo.X, "grpc.ClientConn).Target") || hasSuffixCall(bo.Y, "grpc.ClientConn).Target")
 					_, p1, _ := flow.AccessPath(bo.Y)
 					_, p2, _ := flow.AccessPath(bo.X)
-					if t1 && (p1 == "Status.Endpoint" || p2 == "Status.Endpoint") {
+					if t1 && (strings.HasSuffix(p1, "Status.Endpoint") || strings.HasSuffix(p2, "Status.Endpoint")) {
 						t, _ := cfgx.CondEdges(bo)
 						eqTrue = append(eqTrue, t...)
 					}
@@ -433,12 +448,14 @@ func c04(c *Ctx) {
 		}
 		// active revision selection
 		okActive := false
-		for _, b := range gc.Blocks {
-			for _, in := range b.Instrs {
-				if bo, ok := in.(*ssa.BinOp); ok && bo.Op == token.EQL {
-					for _, pr := range [][2]ssa.Value{{bo.X, bo.Y}, {bo.Y, bo.X}} {
-						if s, ok := cfgx.ConstString(pr[1]); ok && s == "Active" && hasSuffixCall(pr[0], ".GetDesiredState") {
-							okActive = true
+		for _, f := range closures(gc) { // the test may sit in a predicate literal (slices.IndexFunc)
+			for _, b := range f.Blocks {
+				for _, in := range b.Instrs {
+					if bo, ok := in.(*ssa.BinOp); ok && bo.Op == token.EQL {
+						for _, pr := range [][2]ssa.Value{{bo.X, bo.Y}, {bo.Y, bo.X}} {
+							if s, ok := cfgx.ConstString(pr[1]); ok && s == "Active" && hasSuffixCall(pr[0], ".GetDesiredState") {
+								okActive = true
+							}
 						}
 					}
 				}
@@ -447,7 +464,7 @@ func c04(c *Ctx) {
 		c.R.Check(okActive, load.FuncName(gc)+": active revision", c.pos(gc.Pos()), "the revision used is chosen by GetDesiredState()==Active", "the revision whose endpoint is dialled is not selected by DesiredState==Active")
 		if len(newc) == 1 {
 			_, p, _ := flow.AccessPath(cfgx.CallArgs(newc[0])[0])
-			c.R.Check(p == "Status.Endpoint", site(newc[0])+" dials active endpoint", c.pos(newc[0].Pos()), "dials active.Status.Endpoint", "the new connection does not dial the active revision's endpoint")
+			c.R.Check(strings.HasSuffix(p, "Status.Endpoint"), site(newc[0])+" dials active endpoint", c.pos(newc[0].Pos()), "dials active.Status.Endpoint", "the new connection does not dial the active revision's endpoint")
 			// the store conns[name] = conn after ok(NewClient); stale one closed+deleted before on the ok&&!eq path
 			for _, b := range gc.Blocks {
 				for _, in := range b.Instrs {
